@@ -576,7 +576,7 @@ func init() {
 		Explain: "Structural necessary conditions of exact select (DESIGN.md 5/C02): unit consistency (E4), same-position bit tests, the builders' scan range / ones counter / recorded position / every-32nd test, builder-reader stride agreement (5 bits), the rank index returned alongside, word/position coherence of the next-1 result (E5), the not-found value, the mask keeping bits above the selected one, equal width/shift/offset in each halving step, Select32R64's rank-guided word skip.",
 		NotDec:  []string{"the final 8-bit table lookup (select8Lookup is built by an init loop) and the arithmetic of the in-word search as a whole", "that skipping whole words by popcount lands on the right word in Select32"},
 		Trusted: []string{"go/ssa construction", "math/bits popcount / TrailingZeros64"},
-		Quick:   []Config{cfgDefault}, Thorough: []Config{cfgDefault, cfg386},
+		Quick:   []Config{cfgDefault, cfg386}, Thorough: []Config{cfgDefault, cfg386},
 		Run: runC02,
 	})
 }
